@@ -54,6 +54,24 @@ Qed.
 Lemma inject_Z_sub (a b : Z) : (inject_Z (a - b) == inject_Z a - inject_Z b)%Q.
 Proof. unfold Z.sub. rewrite inject_Z_plus, inject_Z_opp. reflexivity. Qed.
 
+(* floor / ceiling are characterised by their defining inequalities *)
+Lemma Qfloor_unique (z : Z) (x : Q) : (inject_Z z <= x < inject_Z z + 1)%Q -> Qfloor x = z.
+Proof.
+  intros [H1 H2]. pose proof (Qfloor_le x) as F1. pose proof (Qlt_floor x) as F2.
+  rewrite inject_Z_plus in F2. change (inject_Z 1) with 1%Q in F2.
+  assert (A : (Qfloor x < z + 1)%Z).
+  { rewrite Zlt_Qlt, inject_Z_plus. change (inject_Z 1) with 1%Q. lra. }
+  assert (B : (z < Qfloor x + 1)%Z).
+  { rewrite Zlt_Qlt, inject_Z_plus. change (inject_Z 1) with 1%Q. lra. }
+  lia.
+Qed.
+Lemma Qceiling_unique (z : Z) (x : Q) : (inject_Z z - 1 < x <= inject_Z z)%Q -> Qceiling x = z.
+Proof.
+  intros [H1 H2]. unfold Qceiling.
+  assert (E : Qfloor (- x) = (- z)%Z); [|lia].
+  apply Qfloor_unique. rewrite inject_Z_opp. lra.
+Qed.
+
 (* ---- tactics for the tie proofs ---- *)
 
 (* boolean facts about rational comparisons -> propositions for lra *)
@@ -90,5 +108,27 @@ Ltac s_split :=
       [apply String.eqb_eq in E; subst; cbn [String.eqb Ascii.eqb Bool.eqb andb orb negb] | ]
   end.
 
+(* inject_Z of sums / differences, so that lra sees through Python's int -> float promotion *)
+Global Hint Rewrite inject_Z_plus inject_Z_mult inject_Z_opp inject_Z_sub : injz.
+Ltac q_norm := autorewrite with injz in *.
+
+(* boolean expressions over rational comparisons are equal: split on every atom, decide with lra *)
+Ltac qbool_tie := q_split; q_hyps; first [reflexivity | (exfalso; lra) | (q_norm; exfalso; lra)].
+
+(* decompose an equality of data (pairs, Some, Ok, lists) into equalities of its scalar components --
+   constructors only, never through functions such as Z.max -- and close each with [tac] *)
+Ltac struct_eq tac :=
+  lazymatch goal with
+  | |- (_, _) = (_, _) => apply f_equal2; struct_eq tac
+  | |- Some _ = Some _ => apply f_equal; struct_eq tac
+  | |- Ok _ = Ok _ => apply f_equal; struct_eq tac
+  | |- cons _ _ = cons _ _ => apply f_equal2; struct_eq tac
+  | |- _ => tac
+  end.
+
 (* leaves: equal data up to integer arithmetic *)
-Ltac z_leaf := first [reflexivity | discriminate | lia | (repeat f_equal; lia)].
+Ltac z_leaf := first [reflexivity | discriminate | lia | struct_eq lia].
+
+(* leaves: equal integers computed by floor / ceiling of equal rationals *)
+Ltac qz_scalar := first [reflexivity | lia | (apply Qfloor_comp; ring) | (apply Qceiling_comp; ring)].
+Ltac qz_leaf := first [reflexivity | discriminate | struct_eq qz_scalar].
